@@ -44,9 +44,13 @@ PROPS = {
              trusted_extra=["harness --layout: Unpin facts of the crate's types by autoref specialisation (the adapters over a !Unpin upstream are !Unpin, the collections are Unpin)"]),
     "C09": P([], "C09", "C09", "default,limits,races,sleepy,budget,groups,reuse", ADAPT, (2000, 50000)),
     "C10": P([], "C10", "C10", "default,limits,sleepy,races,budget,groups,reuse", ADAPT, (2000, 50000)),
-    "C11": P([], "C11", "C11", "default,races,limits,big,budget,groups,reuse", "MB,MU", (2000, 50000)),
+    "C11": P([], "C11", "C11", "default,races,limits,big,budget,groups,reuse", "MB,MU", (2000, 50000),
+             generated_lemmas=["GroupLoopInst.grouploop_ok"],
+             trusted_extra=["tools/build.py extract_grouploop: regular expressions over poll_next of FuturesUnordered / MergeUnbounded listing the statements of the group loop in textual order (every write to the cursor and to the counter and every way out of the loop is classified); fu_loop / fu_poll_next of Unbounded.v are my rendering of that skeleton (syntactic tie only)"]),
     "C12": P([], "C12", "C12", "stale,races,default,big,budget,groups,reuse", ALL, (1500, 40000)),
-    "C13": P([], "C13", "C13", "big,default,stale,races,budget,groups,reuse", ALL, (1200, 30000)),
+    "C13": P([], "C13", "C13", "big,default,stale,races,budget,groups,reuse", ALL, (1200, 30000),
+             generated_lemmas=["GroupLoopInst.grouploop_ok"],
+             trusted_extra=["tools/build.py extract_grouploop: regular expressions over poll_next of FuturesUnordered / MergeUnbounded listing the statements of the group loop in textual order (every write to the cursor and to the counter and every way out of the loop is classified); fu_loop / fu_poll_next of Unbounded.v are my rendering of that skeleton (syntactic tie only)"]),
     "C14": P([], "C14", "C14", "sleepy,default,stale,budget,groups,reuse", ALL, (1500, 40000), known_monitor="K14"),
     "C15": P([], "C15", "C15", "limits,default,order,budget,groups,reuse,deque,cycles", COLL, (2000, 50000)),
     "C16": P([], "C16", "C16", "default,limits,sleepy,budget,groups,reuse", "BO,TBO", (2000, 40000)),
